@@ -35,6 +35,9 @@ NFlows == Cfg[proto].flows
 MaxUser == Cfg[proto].user
 Msgs == 1..MaxN
 Flows == 1..NFlows
+\* constant-level bounds for the quantifiers of Next (TLC names the actions only then); guards restrict to Msgs / Flows
+AllMsgs == 1..(CHOOSE k \in {Cfg[p].n : p \in Protos} : \A p \in Protos : Cfg[p].n <= k)
+AllFlows == 1..(CHOOSE k \in {Cfg[p].flows : p \in Protos} : \A p \in Protos : Cfg[p].flows <= k)
 Serial == proto \in {"tcp", "udp", "ws", "dns"}
 Paired == proto \in {"http1", "http2", "dns"}          \* request / response flows
 FlowOfN(n) == IF Paired THEN (n + 1) \div 2 ELSE 1
@@ -119,7 +122,7 @@ CanArrive(n) ==
           ELSE (n - 1) \in fwd
 
 Arrive(n, to, d) ==
-  /\ Live /\ CanArrive(n) /\ (Paired => to = (IF IsReq(n) THEN "s" ELSE "c"))
+  /\ Live /\ n \in Msgs /\ CanArrive(n) /\ (Paired => to = (IF IsReq(n) THEN "s" ELSE "c"))
   /\ LET f == FlowOfN(n)
          w0 == [W0([k |-> "arrive", n |-> n, f |-> f, to |-> to]) EXCEPT !.ms[n].to = to, !.ms[n].dec = d]
      IN IF Serial /\ busy # 0 THEN Commit([w0 EXCEPT !.ms[n].st = "queued", !.q = Append(@, n)])
@@ -129,7 +132,7 @@ Arrive(n, to, d) ==
   /\ UNCHANGED <<proto, relq, nuser>>
 
 Resume(f) ==
-  /\ Live /\ fl[f].known /\ nuser < MaxUser /\ nuser' = nuser + 1
+  /\ Live /\ f \in Flows /\ fl[f].known /\ nuser < MaxUser /\ nuser' = nuser + 1
   /\ Emit(<<[k |-> "resume", f |-> f]>>)
   /\ IF fl[f].ic
        THEN /\ fl' = [fl EXCEPT ![f].ic = FALSE]
@@ -139,14 +142,14 @@ Resume(f) ==
   /\ UNCHANGED <<proto, busy, q, fwd, closed, sconn>>
 
 Kill(f) ==
-  /\ Live /\ fl[f].known /\ nuser < MaxUser /\ nuser' = nuser + 1
+  /\ Live /\ f \in Flows /\ fl[f].known /\ nuser < MaxUser /\ nuser' = nuser + 1
   /\ LET kb == fl[f].live /\ ~fl[f].kd IN
      /\ Emit(<<[k |-> "kill", f |-> f, ok |-> kb]>>)
      /\ fl' = IF kb THEN [fl EXCEPT ![f].kd = TRUE, ![f].ic = FALSE, ![f].live = FALSE] ELSE fl
   /\ UNCHANGED <<proto, ms, busy, q, relq, fwd, closed, sconn>>
 
 EditMsg(f) ==
-  /\ Live /\ nuser < MaxUser /\ nuser' = nuser + 1
+  /\ Live /\ f \in Flows /\ nuser < MaxUser /\ nuser' = nuser + 1
   /\ \E n \in Msgs : /\ FlowOfN(n) = f /\ ms[n].st \in {"waiting", "rel"} /\ ms[n].cur = n
                      /\ ms' = [ms EXCEPT ![n].cur = n + EditOff]
                      /\ Emit(<<[k |-> "edit", n |-> n, f |-> f, id |-> n + EditOff]>>)
@@ -159,10 +162,10 @@ Run ==
   /\ Commit(RunAll(W0([k |-> "run"]), relq))
   /\ UNCHANGED <<proto, nuser>>
 
-Next == \/ \E n \in Msgs, to \in {"s", "c"}, d \in Decisions : Arrive(n, to, d)
-        \/ \E f \in Flows : Resume(f)
-        \/ \E f \in Flows : Kill(f)
-        \/ \E f \in Flows : EditMsg(f)
+Next == \/ \E n \in AllMsgs, to \in {"s", "c"}, d \in Decisions : Arrive(n, to, d)
+        \/ \E f \in AllFlows : Resume(f)
+        \/ \E f \in AllFlows : Kill(f)
+        \/ \E f \in AllFlows : EditMsg(f)
         \/ Run
 Spec == Init /\ [][Next]_vars
 Report == mon.bad # <<>> => PrintT(<<"BAD", mon.bad>>)
